@@ -18,6 +18,29 @@ import z3
 _ctr = itertools.count()
 
 
+# Base-256 digit hints: term -> its octets, registered by whoever builds a number as sum(o_k * 256**(w-1-k)) with
+# 0 <= o_k <= 255.  Big-endian packing of such a term is then the octets themselves (uniqueness of the base-256
+# representation: a stated arithmetic lemma, T4) instead of a chain of div/mod terms the solver must undo.
+_DIGITS = {}
+
+
+def register_digits(term, octs):
+    _DIGITS[term.get_id()] = (term, list(octs))
+    st = z3.simplify(term)
+    _DIGITS[st.get_id()] = (st, list(octs))
+
+
+def digits_hint(term, width):
+    h = _DIGITS.get(term.get_id()) if z3.is_expr(term) else None
+    if h is None and z3.is_expr(term):
+        st = z3.simplify(term)
+        h = _DIGITS.get(st.get_id())
+        term = st
+    if h is not None and h[0].eq(term) and len(h[1]) == width:
+        return h[1]
+    return None
+
+
 def fresh_name(prefix):
     return '%s!%d' % (prefix, next(_ctr))
 
